@@ -69,6 +69,8 @@ theorem K_writevInner (g : Cfg) (s : S) (bs : List Bytes) (k : KAns) : K (writev
   repeat' split
   all_goals first | rfl | exact K_foldl _ _ | exact K_queueRest _ _ _
 
+theorem K_ghost (s : S) (e y : Bool) : K (ghost s e y) = K s := rfl
+
 /-- what a step does to an OPEN connection, as far as closing is concerned -/
 inductive Outcome (s t : S) : Prop
   /-- it stays open -/
@@ -174,40 +176,53 @@ theorem outcome_flush (g : Cfg) (s0 s : S) (ks : List KAns) (hk : K s = K s0) : 
 /-- every step except `teardown`, from an open connection -/
 theorem outcome_step (g : Cfg) (s : S) (op : Op) (hop : op ≠ .teardown) : Outcome s (step g s op) := by
   cases op with
-  | write b k =>
-    simp only [step, write]
-    split
-    · exact .same rfl
-    split
-    · exact .same rfl
-    · exact outcome_finishCall g s _ (K_writeInner g s b k)
-  | writev bs k =>
-    simp only [step, writev]
-    split
-    · exact .same rfl
-    split
-    · exact .same rfl
-    · split
-      · exact outcome_finishCall g s _ (K_writeInner g s _ k)
-      · exact outcome_finishCall g s _ (K_writevInner g s bs k)
+  | write b ks =>
+    have h : Outcome s (write g s b (directAns ks)).1 := by
+      unfold write
+      split
+      · exact .same rfl
+      split
+      · exact .same rfl
+      · exact outcome_finishCall g s _ (K_writeInner g s b _)
+    exact h.of_K rfl rfl
+  | writev bs ks =>
+    have h : Outcome s (writev g s bs (directAns ks)).1 := by
+      unfold writev
+      split
+      · exact .same rfl
+      split
+      · exact .same rfl
+      · split
+        · exact outcome_finishCall g s _ (K_writeInner g s _ _)
+        · exact outcome_finishCall g s _ (K_writevInner g s bs _)
+    exact h.of_K rfl rfl
   | sendfile off len ks =>
-    simp only [step, sendfile]
-    repeat' split
-    all_goals first | exact .same rfl | exact outcome_sendfileLoop g ks s s off _ rfl
+    have h : Outcome s (sendfile g s off len ks).1 := by
+      unfold sendfile
+      simp only
+      repeat' split
+      all_goals first | exact .same rfl | exact outcome_sendfileLoop g ks s s off _ rfl
+    exact h.of_K rfl rfl
   | register =>
-    simp only [step, register]
-    split
-    · exact .same rfl
-    · split
-      · exact .same (K_pAddRead g s)
-      · exact .same (K_pAddReadWrite g s)
+    have h : Outcome s (register g s) := by
+      unfold register
+      split
+      · exact .same rfl
+      · split
+        · exact .same (K_pAddRead g s)
+        · exact .same (K_pAddReadWrite g s)
+    exact h.of_K rfl rfl
   | registerDial =>
-    simp only [step, registerDial]
-    split
-    · exact .same rfl
-    · exact .same (by rw [K_pAddReadWrite]; rfl)
-  | evTake o i e ks =>
-    simp only [step, evTake]
+    have h : Outcome s (registerDial g s) := by
+      unfold registerDial
+      split
+      · exact .same rfl
+      · exact .same (by rw [K_pAddReadWrite]; rfl)
+    exact h.of_K rfl rfl
+  | evTake o0 i e ks =>
+    refine Outcome.of_K (t := evTake g s (o0 && (g.mode != .et || s.edgeDue)) i e ks) ?_ rfl rfl
+    generalize (o0 && (g.mode != .et || s.edgeDue)) = o
+    simp only [evTake]
     split
     · exact .same rfl
     · have h1 : K (if (g.mode == Mode.oneshot) = true then { s with disarmed := true } else s) = K s := by
@@ -278,24 +293,24 @@ theorem resetPollerEvent_closed (g : Cfg) (s : S) (hc : s.closed = true) : reset
 theorem frozen_step (g : Cfg) (s : S) (op : Op) (hc : s.closed = true) (hop : op ≠ .teardown) :
     Z (step g s op) = Z s := by
   cases op with
-  | write b k =>
-    simp only [step, write]
+  | write b ks =>
+    simp only [step, writeOp, write]
     split
     · rfl
     · rfl
-  | writev bs k =>
-    simp only [step, writev]
+  | writev bs ks =>
+    simp only [step, writevOp, writev]
     split
     · rfl
     · rfl
   | sendfile off len ks =>
-    simp only [step, sendfile]
+    simp only [step, sendfileOp, sendfile]
     split
     · rfl
     · rfl
-  | register => simp [step, register, hc]
-  | registerDial => simp [step, registerDial, hc]
-  | evTake o i e ks => simp [step, evTake, deliverable, hc]
+  | register => simp [step, registerOp, register, hc, ghost, Z]
+  | registerDial => simp [step, registerDialOp, registerDial, hc, ghost, Z]
+  | evTake o i e ks => simp [step, evTakeOp, evTake, deliverable, hc, ghost, Z]
   | evEnd =>
     simp only [step, evEnd]
     split
